@@ -45,13 +45,14 @@ class Gen:
     """layout: 0 canonical, 1 mild, 2 wild.  crlf: line endings.  profile: weights of item kinds."""
 
     def __init__(self, g, layout=1, crlf=False, p_doc=0.5, max_depth=3, max_items=6, malformed=0.0,
-                 weights=None, doc_lines=None, idents=None, lg=None):
+                 weights=None, doc_lines=None, idents=None, lg=None, doc_blocks=None):
         # g decides the module's content (its token sequence); lg decides only the layout, so the same content seed
         # with different layout seeds yields layout variants of one module
         self.g = g; self.lg = lg if lg is not None else g; self.layout = layout; self.crlf = crlf; self.p_doc = p_doc; self.max_depth = max_depth
         self.max_items = max_items; self.malformed = malformed
         self.weights = weights or {}
         self.doc_lines = doc_lines or DOC_LINES
+        self.doc_blocks = doc_blocks
         self.idents = idents or IDENTS
         self.n_items = 0
 
@@ -158,11 +159,16 @@ class Gen:
     def doc(self, indent, first=False, lines=None, open_suffix='', force=False):
         g = self.g; lg = self.lg
         if not force and g.random() >= self.p_doc: return None
+        if lines is None and self.doc_blocks is not None:
+            lines = []
+            for b in range(g.randint(0, 3)):
+                if lines: lines.append('')
+                lines += g.choice(self.doc_blocks)
         if lines is None:
             lines = [g.choice(self.doc_lines) for _ in range(g.randint(0, 5))]
         lines = [l for l in lines if ']]' not in l]
         leader = True
-        if not open_suffix and g.random() < 0.08:
+        if not open_suffix and self.doc_blocks is None and g.random() < 0.08:
             leader = False
             lines = [g.choice(LEADERLESS_LINES) for _ in range(g.randint(1, 3))]
         if not leader: ind = ''
